@@ -319,6 +319,11 @@ def run(ctx):
             if not gts:
                 verdicts.append(('undec', f, None))
                 continue
+            arith = [b for b in walk_expr(f['value']) if isinstance(b, ast.BinOp) and isinstance(b.op, (ast.Add, ast.Sub))
+                     and any(isinstance(x, ast.Attribute) and x.attr in ('SDATE', 'STIME') for x in ast.walk(b))]
+            if arith:
+                verdicts.append(('arith', f, arith[0]))
+                continue
             g = gts[0]
             selected = any(isinstance(x, ast.Subscript) and x.value is g and sel_of(x.slice) == ('TSTEP', 'sel') for x in walk_expr(f['value']))
             if isinstance(g.func.value, ast.Name) and g.func.value.id == 'self' and selected:
@@ -328,7 +333,12 @@ def run(ctx):
             else:
                 verdicts.append(('undec', f, g))
         stale = [v for v in verdicts if v[0] == 'stale']
-        if stale:
+        ar = [v for v in verdicts if v[0] == 'arith']
+        if ar:
+            ctx.violation(Finding('R-TIMESRC', RP, Q, ar[0][1]['stmt'],
+                                  'the new start date is computed by adding to the YYYYDDD-coded attribute (%s): day arithmetic on a year-and-day-of-year number does not roll over at the '
+                                  'end of a year (2018365 + 1 = 2018366, not 2019001); the start has to be formatted from the first selected time' % norm(ar[0][2])[:60]))
+        elif stale:
             ctx.violation(Finding('R-TIMESRC', RP, Q, stale[0][1]['stmt'],
                                   'the new start date/time is read with %s.getTimes() while the time attributes of the result '
                                   'are still the stale copies of the source: for a file without a TFLAG variable the window '
@@ -340,6 +350,27 @@ def run(ctx):
             ctx.undec('R-TIMESRC', norm(u[1]['new'])[:70], where, 'source of the new start time not recognised')
     else:
         ctx.undec('R-TIMESRC', 'SDATE/STIME source', where, 'no SDATE store (see R-GEOHANDLERS)')
+    # ---- R-STEPSET: the new TSTEP is stored whenever more than one time is retained - not only under a further condition
+    ctx.rule('R-STEPSET', 'the TSTEP attribute of a time selection is stored on every path that retains more than one time (no further condition, e.g. only for irregular steps)')
+    ts = facts.of('TSTEP')
+    if not ts:
+        ctx.undec('R-STEPSET', 'TSTEP', where, 'no TSTEP store (see R-GEOHANDLERS)')
+    else:
+        ctl = facts.controlling(ts)
+        extra = []
+        for k_, (pol, x) in sorted(ctl.items()):
+            if sel_of(x) is not None:
+                continue
+            if any(isinstance(n_, ast.Attribute) and n_.attr in ('size', 'shape', 'ndim') for n_ in ast.walk(x)) or 'len(' in k_:
+                continue        # how many times are retained
+            if 'newdims' in k_ or 'isscalar' in k_:
+                continue
+            extra.append((k_, pol))
+        if extra:
+            ctx.violation(Finding('R-STEPSET', RP, Q, ts[0]['stmt'], 'the new TSTEP is stored only when %s is %s: for every other selection of several times (e.g. a regular stride) the result keeps '
+                                  'the step of the source while its time flags are those of the selection' % (extra[0][0][:60], extra[0][1])))
+        else:
+            ctx.ok('R-STEPSET', 'TSTEP', where, 'stored under %s only' % (sorted(k_[:40] for k_ in ctl) or 'no condition'))
     # ---- wrapper classification of selector kinds agrees with the base method (numpy integers are integers)
     from . import c02
     ctx.rule('R-KINDS', 'the wrapper classifies selector kinds (int, numpy int, slice, sequence) exactly like the base method')
